@@ -177,7 +177,15 @@ def keys_for(ob):
         return [ob["kind"] + ":" + ob["label"]]
     if ob["kind"] in SAFETY:
         return ["finite", "no-raise"]
+    if ob["kind"] == "cut-lemma":
+        return ["*"]      # a failed lemma is witnessed by ANY contract clause failing natively
     return [ob["label"] or ob["kind"]]
+
+
+def violated(nat, keys):
+    if keys == ["*"]:
+        return any(v is False for k, v in nat.items() if not k.startswith("_"))
+    return any(nat.get(k) is False for k in keys)
 
 
 def inp_jsonable(inp):
@@ -229,7 +237,7 @@ def run_harness(h, budget_s=20.0, seed=0, native_tries=300):
                         nat = native_eval(h, inp)
                         fail["model_inputs"] = inp_jsonable(inp)
                         fail["native"] = {k: v for k, v in nat.items()}
-                        if any(nat.get(k) is False for k in keys_for(o)):
+                        if violated(nat, keys_for(o)):
                             fail["replayed"] = True
                             fail["replay_inputs"] = inp_jsonable(inp)
                     except Exception as e:
@@ -249,7 +257,7 @@ def run_harness(h, budget_s=20.0, seed=0, native_tries=300):
             except Exception as e:
                 break
             for f in list(pend):
-                if any(nat.get(k) is False for k in keys_for(f)):
+                if violated(nat, keys_for(f)):
                     f["replayed"] = True; f["replay_inputs"] = inp_jsonable(inp); f["native"] = nat; f["found_by"] = "native-search"
                     pend.remove(f)
     rec["wall_s"] = time.time() - t0
